@@ -19,6 +19,7 @@ require (
 	github.com/spf13/viper v1.19.0
 	github.com/wealdtech/go-eth2-types/v2 v2.8.2
 	github.com/wealdtech/go-eth2-wallet-types/v2 v2.12.0
+	github.com/wealdtech/go-majordomo v1.1.1
 )
 
 require (
@@ -81,7 +82,6 @@ require (
 	github.com/wealdtech/go-eth2-wallet-store-s3 v1.12.0 // indirect
 	github.com/wealdtech/go-eth2-wallet-store-scratch v1.7.2 // indirect
 	github.com/wealdtech/go-indexer v1.1.0 // indirect
-	github.com/wealdtech/go-majordomo v1.1.1 // indirect
 	go.opentelemetry.io/contrib/instrumentation/google.golang.org/grpc/otelgrpc v0.57.0 // indirect
 	go.opentelemetry.io/otel v1.32.0 // indirect
 	go.opentelemetry.io/otel/metric v1.32.0 // indirect
